@@ -2,7 +2,7 @@
 C23 - RUN, CLEAR and NEW reset everything; CHAIN keeps exactly the COMMON variables.
 
 E2-style exhaustive history enumeration (no sampling), every case on a FRESH session:
-  reset   every subset of <=3 (quick) / <=5 (thorough) state builders out of 19 (scalars of 4 types,
+  reset   every subset of <=3 (quick) / <=4 (thorough) state builders out of 19 (scalars of 4 types,
           literal / heap / 255-char strings, string churn, 1-D int, string and 2-D arrays, DEF FN, DEFtype,
           OPTION BASE 1, open FOR / WHILE / GOSUB frames, ON ERROR GOTO, stopped inside the error
           handler, RANDOMIZE+RND) built by a program that STOPs inside its frames, followed by each of 13
@@ -23,7 +23,7 @@ PROPERTY = 'C23'
 ENGINE = 'E2 bfs'
 LEVEL = 'model_checking'
 LEVEL_TEXT = (
-    'All combinations of up to 5 (quick: 3) state builders out of 19 - each touching one component named '
+    'All combinations of up to 4 (quick: 3) state builders out of 19 - each touching one component named '
     'in the property (variables of every type, arrays, DEF FN, DEFtype, OPTION BASE, FOR/WHILE/GOSUB '
     'frames, error trap, active error handler, random sequence) - are built on a fresh interpreter, '
     'followed by each of 13 forms of RUN / CLEAR / NEW / line edit, and every component is then observed '
@@ -561,7 +561,7 @@ def _subsets(items, k):
 
 def legs(ctx):
     out = []
-    k = 3 if ctx.quick else 5
+    k = 3 if ctx.quick else 4
     cases = []
     for sub in _subsets(BUILDERS, k):
         if 'sB' in sub and 'sH' in sub and False:
